@@ -41,6 +41,17 @@ Theorem C04_error_state_not_ready :
 Proof. exact run_err_not_ready. Qed.
 Print Assumptions C04_error_state_not_ready.
 
+(* The same holds before negotiateSession's final clearing of the bit (which the model has as
+   [finish], and which no scenario can observe any more since features.go stopped applying a
+   feature's Ready bit early): no call of a negotiator ever sets Ready; negotiateSession sets
+   it from the mask of a successful call, after its ctx test, and the loop ends there. *)
+Theorem C04_error_state_not_ready_before_clearing :
+  forall cfg pl bits clear tls calls r w,
+    interp pl (the_session cfg clear tls) (init_world bits clear tls calls) = (r, w) ->
+    r <> ROk tt -> is_ready (w_bits w) = false.
+Proof. exact unfinished_err_not_ready. Qed.
+Print Assumptions C04_error_state_not_ready_before_clearing.
+
 (* ... and inside feature negotiation the mask a step returns is applied only when the step
    returned no error (features.go `if err == nil { s.state |= mask }`): a step that does not
    return Ok leaves the state bits as they were, whatever mask it wanted to set. *)
